@@ -13,11 +13,23 @@ PROPS = {
                        'The text->token layer (lexer, preprocess) is not within Verus reach.',
         'assumptions': ['tokens carry the values their text denotes (lexer not verified deductively)'],
     },
+    'C02': {
+        'level': 'proof',
+        'kani': False,
+        'explanation': 'Every handler of RunState (add and br jmp jsr ld ldi ldr lea not st sti str stack push_val pop_val trap) and the '
+                       'dispatch in execute are proved equal to step_spec — the ISA step oracle over the whole machine state (8 registers, '
+                       '65536 memory words, PC, CC, orig, PSR), so the frame (nothing else changes) is part of every postcondition. '
+                       'All 65536 instruction words x symbolic state, no bound. Exit sites (stack feature off -> 1, unknown trap -> 0xEE) '
+                       'are checked to be reachable only when step_spec says Exit. RTI (todo!) is outside the claim.',
+        'assumptions': ['bodies of the unsafe accessors reg/reg_mut/mem/mem_mut are trusted (R8); every call site proves its bound',
+                        's_ext contract (== sext spec) is assumed in Verus and discharged by the complete Kani harness when Kani is run',
+                        'features::stack() is constant during a run', 'text printed by traps is not modelled (R4)'],
+    },
 }
 
 NOT_APPLICABLE = {
     'C08': 'file-system effect ordering and exit status of a main() match arm under injected I/O faults: no function boundary, '
            'no returnable state and no contract language for file contents with the installed verifiers (DESIGN §5 C08)',
 }
-for _p in ['C02', 'C03', 'C04', 'C05', 'C06', 'C07', 'C09', 'C10', 'C11', 'C12', 'C13', 'C14', 'C15', 'C16', 'C17', 'C18', 'C19', 'C20']:
+for _p in ['C03', 'C04', 'C05', 'C06', 'C07', 'C09', 'C10', 'C11', 'C12', 'C13', 'C14', 'C15', 'C16', 'C17', 'C18', 'C19', 'C20']:
     NOT_APPLICABLE.setdefault(_p, 'check not built yet in this revision (planned, see DESIGN.md §5)')
